@@ -255,8 +255,8 @@ DTS = [1.0, 0.5, 0.25, 2.0, 1.0, 0.5, 0.1, 1.3, 0.7]
 FREQS = [10.0, 100.0, 900.0, 0.0]
 # expected spikes per step at intensity 1 (frequency = 1000 p / dt); > 1 is clamped / saturates
 PSTEP = [0.05, 0.1, 0.25, 0.5, 0.5, 0.8, 0.8, 0.95, 1.5]
-# configuration paths that crash on the pinned tree (proposed known findings): kept at a small
-# fraction of the setter cases so that the search continues behind them
+# two configuration-through-setter paths crash on the pinned tree (approx.frequency setter, hpe.refrac = None);
+# they are not part of C19's statement and are excluded by construction (DESIGN.md section 6, observations)
 KNOWN_REGION_ONE_IN = 8
 
 
@@ -288,8 +288,8 @@ def encode_case(draw, tier="quick"):
     if enc == "hpe":
         m = draw(st.sampled_from([None, 1, 2, 2, 3, 5, 5, 7]))
         comp = draw(st.booleans())
-        if comp and freq * (1 if m is None else m) * dt >= 1000.0:
-            comp = False  # documented: compensation needs frequency * refrac < 1000
+        if comp and freq * (1 if m is None else m) * dt >= 999.99:
+            comp = False  # documented: compensation needs frequency * refrac < 1000 (kept clear of the rounding of the product)
         c["m"], c["compensate"] = m, comp
     if route == "class" and draw(st.integers(0, 3)) == 0:
         order = draw(st.permutations(["steps", "dt", "frequency", "refrac"]))
@@ -297,7 +297,7 @@ def encode_case(draw, tier="quick"):
             "steps0": draw(st.integers(1, 20)), "dt0": draw(st.sampled_from([1.0, 0.5, 2.0])),
             "freq0": draw(st.sampled_from([20.0, 100.0])), "order": list(order),
         }
-        known = draw(st.integers(0, KNOWN_REGION_ONE_IN - 1)) == 0
+        known = False  # the two crashing setter paths are outside C19's statement (DESIGN.md section 6, observations): never generated
         if enc == "hpe":
             sp["m0"] = draw(st.sampled_from([None, 1, 3]))
             if c["m"] is None and sp["m0"] is not None and not known:
